@@ -487,14 +487,14 @@ func runGoStrings(o opts) error {
 // protocolVersion answers it, the announced line goes back into Start.
 
 type n2Case struct {
-	CVersion  int        `json:"cversion"`
-	CLegacy   bool       `json:"clegacy"`
-	CVer      []verEntry `json:"cversioned"`
-	SVersion  int        `json:"sversion"`
-	SLegacy   bool       `json:"slegacy"`
-	SLegacyK  int        `json:"slegacy_kind"`
-	SVer      []verEntry `json:"sversioned"`
-	Factory   bool       `json:"factory"`
+	CVersion int        `json:"cversion"`
+	CLegacy  bool       `json:"clegacy"`
+	CVer     []verEntry `json:"cversioned"`
+	SVersion int        `json:"sversion"`
+	SLegacy  bool       `json:"slegacy"`
+	SLegacyK int        `json:"slegacy_kind"`
+	SVer     []verEntry `json:"sversioned"`
+	Factory  bool       `json:"factory"`
 }
 
 func init() { families["negotiate2"] = runNegotiate2 }
@@ -510,12 +510,12 @@ func genNegotiate2(o opts) []n2Case {
 	}
 	cs := []n2Case{
 		{CVersion: 1, CLegacy: true, SVersion: 1, SLegacy: true, SLegacyK: 1},
-		{CVersion: 2, CLegacy: true, SVer: []verEntry{{1, 21, 2}, {2, 22, 2}}, Factory: true},                                   // legacy host, multi-version plugin
-		{CVersion: 3, CLegacy: true, CVer: []verEntry{{2, 12, 1}}, SVer: []verEntry{{2, 22, 2}, {3, 23, 2}}, Factory: true},     // mixed host: legacy is the highest common
+		{CVersion: 2, CLegacy: true, SVer: []verEntry{{1, 21, 2}, {2, 22, 2}}, Factory: true},                                       // legacy host, multi-version plugin
+		{CVersion: 3, CLegacy: true, CVer: []verEntry{{2, 12, 1}}, SVer: []verEntry{{2, 22, 2}, {3, 23, 2}}, Factory: true},         // mixed host: legacy is the highest common
 		{CVer: []verEntry{{2, 12, 1}, {3, 13, 1}, {5, 15, 1}, {4, 14, 1}}, SVer: []verEntry{{3, 23, 2}, {2, 22, 2}}, Factory: true}, // host two ahead
 		{CVer: []verEntry{{5, 15, 1}, {4, 14, 1}, {3, 13, 1}}, SVer: []verEntry{{3, 23, 2}, {1, 21, 2}}, Factory: true},
-		{CVer: []verEntry{{7, 17, 1}}, SVer: []verEntry{{3, 23, 2}, {1, 21, 2}}, Factory: true},                                  // disjoint
-		{CVersion: 0, CLegacy: true, CVer: []verEntry{{0, 10, 1}}, SVer: []verEntry{{0, 20, 1}}},                                 // real version 0 on the host
+		{CVer: []verEntry{{7, 17, 1}}, SVer: []verEntry{{3, 23, 2}, {1, 21, 2}}, Factory: true},  // disjoint
+		{CVersion: 0, CLegacy: true, CVer: []verEntry{{0, 10, 1}}, SVer: []verEntry{{0, 20, 1}}}, // real version 0 on the host
 	}
 	id := 100
 	for len(cs) < n {
